@@ -122,8 +122,14 @@ def new_line_table(ctx, rid, only_gate=False):
             return ("rlo", v)
         if "is_skipped_line(arg1)" in key:
             return ("skip", v)
-        if " Gt " in key and "line_len" in key and "max_width" in key:
-            return ("wide", v)
+        if "line_len" in key and "max_width" in key and isinstance(v, bool):
+            # the same comparison in any of its four spellings
+            left_is_len = key.index("line_len") < key.index("max_width")
+            for op, when_len_left, when_len_right in ((" Gt ", True, None), (" Le ", False, None), (" Lt ", None, True), (" Ge ", None, False)):
+                if op in key:
+                    pol = when_len_left if left_is_len else when_len_right
+                    if pol is not None:
+                        return ("wide", v if pol else (not v))
         return None
 
     def pushed(path):
